@@ -246,3 +246,18 @@ ADDENDA8 = {
 for _pid, _txt in ADDENDA8.items():
     if _pid in PROPS:
         PROPS[_pid]["explanation"] += _txt
+
+ADDENDA9 = {
+    "C01": " C01.15 contains_subcircuit answers correctly; C01.16 a zero slice step is refused unconditionally.",
+    "C03": " C03.10 unknown gates are passed over only when busy (made-up bounding gates).",
+    "C06": " C06.19 polarity of Constant.__int__.",
+    "C08": " C08.14 more discovery and walker guards; C08.15 made-up bounding gates are emulated as no-ops; C08.16 wrap-around test on the trace open at entry.",
+    "C13": " C13.21 every state field in the parallel refusal; C13.22 identity in the relinker; C13.23 made-up bounding gates are busy.",
+    "C14": " C14.15 marker value and injected-over-imported; C14.16 zero step refused unconditionally.",
+    "C15": " C15.16 the total error is |total - 1|.",
+    "C18": " C18.15 stretch polarities; C18.16 abstract number types in validate; C18.17 unique parameter names.",
+    "C20": " C20.13 isnan guarded; C20.14 parameter/constant equality is symmetric.",
+}
+for _pid, _txt in ADDENDA9.items():
+    if _pid in PROPS:
+        PROPS[_pid]["explanation"] += _txt
